@@ -62,8 +62,8 @@ def cfg (tab : List (List Char × List Char)) : Cfg where
   foldEq := fun a b => (if 'A' ≤ a && a ≤ 'Z' then Char.ofNat (a.toNat + 32) else a) == b || (a == 'ſ' && b == 's') || (a == '\u212a' && b == 'k')
   lower := lowerC
   isWord := fun c => ('0' ≤ c && c ≤ '9') || ('A' ≤ c && c ≤ 'Z') || ('a' ≤ c && c ≤ 'z') || c == '_'
-def run (fxB : Bool) (which h : String) : String :=
-  match irregular (cfg (if which == "plural" then irregularPlural else irregularSingular)) fxB (unhex h) with
+def run (f2 f3 : Bool) (which h : String) : String :=
+  match irregular2 (cfg (if which == "plural" then irregularPlural else irregularSingular)) f2 f3 (unhex h) with
   | .nomatch => "nomatch"
   | .panic => "panic"
   | .ok s => "ok " ++ hex s
@@ -503,7 +503,7 @@ def handle (fx : String → Bool) (line : String) : String :=
      | some rs => "(" ++ String.intercalate ", " (rs.map fun r => String.intercalate " | " (r.map showRes)) ++ ")")
   | "exec" :: args => ExecProbe.run fxB args
   | "vlit" :: _ :: toks => ValProbe.run fx1 toks
-  | ["infl", which, h] => InflProbe.run fxB which h
+  | ["infl", which, h] => InflProbe.run (fx "F2") (fx "F3") which h
   | "dcopy" :: _ :: prev :: decls => DcProbe.run fx1 prev decls
   | "rdoc" :: id :: names :: types => RdProbe.run fxB id names types
   | "tlit" :: _ :: self :: names :: toks => TlProbe.run fx1 self names toks
